@@ -64,6 +64,12 @@ def xid(nb, meta, tiers):
         bound="%d xattr sets, metadata block size scaled to %d bytes (%d id entries per block), symbolic block address steps, append may fail" % (nb, meta, meta // 16))
 OBLIGATIONS += [xid(1, 32, ["quick", "thorough"]), xid(2, 32, ["quick", "thorough"]), xid(3, 32, ["quick", "thorough"]), xid(4, 32, ["thorough"]), xid(3, 48, ["thorough"])]
 
+def namelen(n, tiers):
+    return dict(name="dir_entry_name_length_%d" % n, harness="harness/C03_namelen.c", sources=["lib/util/src/alloc.c", "lib/util/src/array.c"], included_sources=["lib/sqfs/src/dir_writer.c"],
+        defines=dict(NAMELEN=n), unwind=n + 3, tiers=tiers, timeout=300, reach=["accepted" if n <= 256 else "refused"],
+        functions=["sqfs_dir_writer_add_entry (lib/sqfs/src/dir_writer.c)"], bound="a name of exactly %d bytes" % n)
+OBLIGATIONS += [namelen(256, ["quick", "thorough"]), namelen(257, ["quick", "thorough"])]
+
 ASSUMPTIONS = ["codec libraries (liblz4, libzstd) replaced by contract stubs that return any documented value",
                "metadata writer replaced by a recording stub with a position model (offset wraps at the scaled block size, block address advances by 3..M+2)",
                "inode references < 2^48 and block positions < 2^40"]
